@@ -75,8 +75,9 @@ func (env *ExecEnv) Get(name string) (v Var, set bool) {
 			Name:  name,
 			Value: value,
 		}
-		// $- is set even when no option is
-		set = value != "" || name == "-"
+		// $- is set even when no option is, $0 even when the name
+		// is empty
+		set = value != "" || name == "-" || name == "0"
 		return
 	}
 Default:
